@@ -173,17 +173,33 @@ def cur_code(c):
     return {"CAD": 1, "USD": 2}.get(c, 7)
 
 
+def gen_pair(rng, p_err):
+    """(currency, explicit rate) of a column pair; error-provoking choices with probability p_err"""
+    if rng.random() < p_err:
+        return rng.choice([("EUR", None), ("CAD", "1.25"), ("USD", "0"), ("USD", "-1"), (None, "1.3"),
+                           ("cad", "0.5"), ("EUR", "0"), ("CAD", "0")])
+    k = rng.random()
+    if k < 0.2:
+        return (None, None)
+    if k < 0.3:
+        return (rng.choice(["CAD", "cad"]), rng.choice([None, None, "1", "1.0", "1.00"]))
+    if k < 0.75:
+        return (rng.choice(["USD", "USD", "usd"]), None)            # needs the Bank of Canada rate
+    if k < 0.9:
+        return ("USD", rng.choice(["1.25", "1.3305", "0.5", "1"]))  # explicit rate wins
+    return ("EUR", rng.choice(["1.45", "0.0071", "2"]))
+
+
 def gen_rows(rng, lo, hi, n):
     rows = []
+    p_err = rng.choice([0.0, 0.0, 0.03, 0.15])
     for i in range(n):
         td = rng.randint(lo, hi)
-        cur = rng.choice(CURS)
-        fx = rng.choice(FXS) if rng.random() < 0.5 else None
-        if rng.random() < 0.6:
+        cur, fx = gen_pair(rng, p_err)
+        if rng.random() < 0.55:
             ccur, cfx = None, None
         else:
-            ccur = rng.choice(CURS)
-            cfx = rng.choice(FXS) if rng.random() < 0.5 else None
+            ccur, cfx = gen_pair(rng, p_err)
         rows.append({"td": td, "cur": cur, "fx": fx, "ccur": ccur, "cfx": cfx})
     return rows
 
@@ -329,9 +345,13 @@ def check_rows(res, ctx, batch):
                                   {"input": h, "row": k, "expected_spec": str((etx, ecm)), "actual_impl": str(got),
                                    "replay_mode": "rows", "replay_case": [truth, today, avail, rows]})
                     break
-            ctx["seen"].add(("rows", hashlib.sha1(h["csv"].encode()).hexdigest()))
-            if any(r["cur"] and r["cur"].upper() == "USD" and r["fx"] is None for r in rows):
+            key = ("rows", hashlib.sha1((h["csv"] + json.dumps(h["truth"])).encode()).hexdigest())
+            if key not in ctx["seen"] and any(
+                    c and c.upper() == "USD" and f is None
+                    for r in rows for c, f in ((r["cur"], r["fx"]), (r["ccur"], r["cfx"]))):
+                ctx["seen"].add(key)
                 st["distinct_nontrivial"] += 1
+                st["row-files-with-USD-lookup"] += 1
 
 
 # ------------------------------------------------------------------ support checks
@@ -427,7 +447,10 @@ def run(res, ctx):
         truth, todays, lookups = gen_calendar(rng)
         today, avail = todays[0]
         days = [o["day"] for o in truth] or [today]
-        lo, hi = min(days) - 2, min(max(days) + 2, today + 1)
+        if rng.random() < 0.7:      # trade dates the rule has a rate for (most files are accepted)
+            lo, hi = min(days), max(min(days), min(max(days) + 3, today - 1))
+        else:
+            lo, hi = min(days) - 9, max(min(days), min(max(days) + 9, today + 1))
         batch.append((truth, today, avail, gen_rows(rng, lo, max(lo, hi), rng.randint(1, 6))))
     check_rows(res, ctx, batch)
 
